@@ -26,7 +26,7 @@ func init() {
 			"streams: hash of the stream bytes and chunking with >= 2 frames.",
 		Assumptions: []string{"proto.Marshal/proto.Equal of golang/protobuf are trusted for the real protobuf messages",
 			"versions are <= 16 bytes and not NUL-terminated (stated domain)"},
-		Flavours: releaseOnly,
+		Flavours: releaseThenGo126,
 		Required: []string{"kind/legacy", "kind/legacy+version", "kind/BytesValue", "kind/StringValue", "kind/BytesValue+version",
 			"body/0", "body/1", "body/70000", "ver/len=0", "ver/len=16", "ver/interior-NUL", "chunk/whole", "chunk/one-byte", "chunk/random", "chunk/data+EOF", "chunk/zero-reads",
 			"stream/frames=1", "stream/frames>=4", "stream/eof-after-last", "target/reused", "target/reused-for-empty-body"},
